@@ -164,14 +164,14 @@ def multilabelPrCurve (cols : List (List Q × List Q)) : Except Err (List PRC) :
 
 /-! ### AUPRC -/
 
-def XQ.q? : XQ → Option Q
+def xq? : XQ → Option Q
   | .val q => some q
   | _ => none
 
 /-- all entries finite? (curve values always are: `TE.C05.prCurve_model_eq_spec`) -/
 def allQ? : List XQ → Option (List Q)
   | [] => some []
-  | x :: xs => match x.q?, allQ? xs with
+  | x :: xs => match xq? x, allQ? xs with
     | some q, some qs => some (q :: qs)
     | _, _ => none
 
